@@ -143,7 +143,7 @@ CHECKS = {
              "with a crash at any step and an ignorable side-file failure; TLC checks that a successful Fetch installs one complete stored version and that a successful Store is what "
              "the next Fetch returns, and (sensitivity) finds the stale-hash counterexample when the failure is ignored. On the real caches (mutable and immutable, MemMapFs and OS) "
              "Store is interrupted at every backend call by an injected error or by the death of the client, the entry is stale-cleaned and fetched; concurrent clients run under gated "
-             "random schedules; TLC judges all recorded observations with the same monitor. Overlapping Stores of the lock-based cache are ordered by their critical sections (LockAcquired events); directed sweeps add a failing Store handing the lock over, CleanEntry of the immutable cache stopped at every backend call around a complete Store, a waiter timing out on the entry lock while a third client stores, and a re-Store of the earlier content after an interrupted Store.",
+             "random schedules; TLC judges all recorded observations with the same monitor. Overlapping Stores of the lock-based cache are ordered by their critical sections (LockAcquired events); directed sweeps add a failing Store handing the lock over, CleanEntry of the immutable cache stopped at every backend call around a complete Store, a waiter timing out on the entry lock while a third client stores, and a re-Store of the earlier content after an interrupted Store. A directed late-heart-beat stage (heart beat held until the Store and its release are over) reproduces the known finding released-lock-recreated-by-late-heartbeat on the in-memory backend.",
         note="Trusted: TLC, the gate's fault injection at the afero.Fs boundary, tree comparison of the destination with the stored versions; MemMapFs breakdowns void a scenario.",
         technique="TLA+ spec + TLC exhaustive; fault/crash sweep over every backend call of the real Store; TLC trace validation"),
     "C17": dict(
